@@ -936,12 +936,24 @@ pub fn c05_node(ctx: &Ctx) {
             }
         }
     }
+    // ... and staggered outages from the very first datagram: nothing gets through for l1 seconds, then one direction
+    // only for another `extra` seconds (a whole attempt is lost while the other end's state of that attempt survives);
+    // with the configuration on one side or on both (then both ends dial)
+    for (a, b) in [(0u8, 1u8), (1, 0)] {
+        for l1 in [10u16, 30, 60, 100, 119, 150] {
+            for extra in [5u16, 20, 30, 60, 100] {
+                for edges in [[0u8, 0, 0], [0b010, 0b001, 0]] {
+                    directed.push(C05Node { nodes: 2, fates: vec![0], adversarial_seconds: 0, edges, outages: vec![(a, b, 0, l1), (b, a, 0, (l1 + extra).min(199))], blackout: 0 });
+                }
+            }
+        }
+    }
     let nd = directed.len() as u64;
     ctx.par_items(&directed, |_, c| {
         let v = c05_node_case(ctx, c);
         ctx.report(v);
     });
-    ctx.subspace("node level: one-way outage during the handshake (both directions x 4 start offsets x lengths 60/119/125/180 s), then reliable", nd, true);
+    ctx.subspace("node level: one-way outage during the handshake (both directions x 4 start offsets x lengths 60/119/125/180 s) and staggered two-way outages from the first datagram (6 x 5 lengths x both directions x one- / two-sided configuration), then reliable", nd, true);
     // total blackouts of minutes to hours between established, configured peers: peers time out, handshakes give up,
     // only the reconnect schedule of configured peers keeps dialling; when the network returns the pairs must be back
     // within the same bound (2 and 3 nodes, configuration on one side or on both)
